@@ -1,7 +1,72 @@
 """C01 memory safety and clean teardown: ASan+UBSan+LSan verdicts, tx-identity checks in every callback,
-per-script allocation accounting (no library allocation live after destroy), watchdog."""
-from .. import framework as fw
+per-script allocation accounting (no library allocation live after destroy), watchdog; plus a valgrind memcheck pass
+(uninitialised values, which red-zone sanitizers cannot see) in which every user-visible field is folded into control flow."""
+import os
+import re
+import subprocess
+from concurrent.futures import ThreadPoolExecutor
+
+from .. import build, framework as fw
 from . import hostile
+
+MEMCHECK_N = {'quick': 48000, 'thorough': 1600000}
+
+
+def memcheck_key(block):
+    kind = block[0]
+    kind = re.sub(r'^==\d+== ', '', kind).strip()
+    kind = re.sub(r'\d+', 'N', kind)[:60].replace(' ', '_')
+    func = '?'
+    for l in block[1:]:
+        m = re.search(r'(?:at|by) 0x[0-9A-F]+: (\w+) \(([\w.]+):\d+\)', l)
+        if m and (m.group(2).startswith('htp_') or m.group(2).startswith('bstr') or m.group(2).startswith('Lzma')):
+            func = m.group(1)
+            break
+    return 'memcheck:%s:%s' % (kind, func)
+
+
+def memcheck(v, tier, wd):
+    bdir = build.build('plain')
+    corpus = os.path.join(wd, 'corpus.hxb')
+    nsh = fw.NPROC
+    n = MEMCHECK_N[tier]
+    seed = fw.seed()
+
+    def one(s):
+        log = os.path.join(wd, 'memcheck%d.log' % s)
+        cmd = ['valgrind', '-q', '--error-exitcode=0', '--error-limit=no', '--log-file=' + log, bdir + '/hx', 'mutate', corpus, '--n', str(n), '--seed', str(seed + 977),
+               '--shard', str(s), '--nshards', str(nsh), '--touch-all']
+        try:
+            p = subprocess.run(cmd, stdout=subprocess.PIPE, stderr=subprocess.PIPE, timeout=14400)
+        except subprocess.TimeoutExpired:
+            raise fw.Inconclusive('memcheck pass exceeded its wall-clock watchdog')
+        ev = 0
+        for l in p.stdout.decode('latin-1').split('\n'):
+            if l.startswith('S '):
+                m = re.search(r'"evaluations":(\d+)', l)
+                ev = int(m.group(1)) if m else 0
+        return p.returncode, ev, open(log, errors='replace').read() if os.path.exists(log) else ''
+
+    with ThreadPoolExecutor(max_workers=nsh) as ex:
+        res = list(ex.map(one, range(nsh)))
+    evals = 0
+    reports = 0
+    for rc, ev, log in res:
+        if rc != 0 and not log.strip():
+            raise fw.Inconclusive('memcheck process failed (rc %d) without a report' % rc)
+        evals += ev
+        block = []
+        for l in log.split('\n') + ['==0== ']:
+            body = re.sub(r'^==\d+== ?', '', l)
+            if body.strip() == '':
+                if block:
+                    reports += 1
+                    key = memcheck_key(block)
+                    v.add('C01', key, '\n'.join(block)[:2500], fw.write_text_replay('C01', key, '\n'.join(block) + '\nreplay: valgrind hx mutate <corpus> with the same --seed/--shard'))
+                block = []
+            else:
+                block.append(l)
+    return evals, reports
 
 
 def run(tier):
@@ -9,9 +74,13 @@ def run(tier):
     h = hostile.run_hostile('C01', tier, v)
     cov = hostile.coverage(h, 'Oracle: sanitizer reports are fatal and attributed to the running script; every byte handed to a '
                               'callback is read; library allocations are counted through renamed allocator entry points and must be zero after teardown.')
+    mc_evals, mc_reports = memcheck(v, tier, os.path.join(fw.OUT, 'work', 'C01'))
+    cov['memcheck'] = {'evaluations': mc_evals, 'reports': mc_reports,
+                       'what': 'valgrind memcheck over a further slice of the same mutated workload (plain build); the canonical dump of every run (all user-visible fields, bodies, events, logs) '
+                               'is hashed into a hash-set key so that any field derived from uninitialised memory reaches control flow and is reported'}
     st = h['stats']
     return v.finish(cov, assumptions=['red-zone sanitizers miss intra-object overflows and reuse of recycled blocks',
                                       'destroying a transaction from inside its own TRANSACTION_COMPLETE callback is not exercised (out of contract)'],
                     min_obs={'api_calls': (st.get('api_calls', 0), 100000), 'tx_auto_destroyed': (st.get('tx_auto_destroyed', 0), 100),
                              'tx_destroyed_by_harness': (st.get('tx_destroyed_by_harness', 0), 100), 'cb_nonok': (st.get('cb_nonok', 0), 100),
-                             'gaps': (st.get('gaps', 0), 100)})
+                             'gaps': (st.get('gaps', 0), 100), 'memcheck_evaluations': (mc_evals, MEMCHECK_N[tier] // 2)})
